@@ -106,6 +106,57 @@ def gen_data(rng, t, nrows=None):
     return [[gen_data(rng, c) for c in t[2]] for _ in range(n)]
 
 
+LAST_KINDS = ["str0", "str4", "str8", "str5", "byte4", "byte8", "byte5", "zero-extent", "scalar", "sequence",
+              "strarr-last0", "strarr-last4", "struct-last-str4", "grid-last-byte4", "only-str0", "only-byte4"]
+
+
+def last_variable(rng, kind, name="z"):
+    """(declaration, data) of a variable that is to be the LAST one of a dataset: what the decoder reads last
+    decides whether its final `read` has length 0 (no padding due / empty body) or not"""
+    pr = lambda n: bytes(rng.choice(PRINTABLE) for _ in range(n))
+    kind = kind.replace("only-", "")
+    if kind.startswith("strarr-last"):
+        n = rng.randint(1, 3)
+        vals = [gen_value(rng, "String") for _ in range(n - 1)] + [pr(int(kind[11:]) * rng.choice([1, 2]))]
+        return ("b", "String", (n,), name, False), vals
+    if kind.startswith("str") and kind[3:].isdigit():
+        return ("b", "String", (), name, False), pr(int(kind[3:]))
+    if kind.startswith("byte"):
+        n = int(kind[4:])
+        t = ("b", "Byte", (n,) if rng.random() < 0.6 else (n // 4, 4) if n % 4 == 0 else (1, n), name, False)
+        return t, gen_data(rng, t)
+    if kind == "zero-extent":
+        ty = rng.choice(TYPES)
+        t = ("b", ty, rng.choice([(0,), (3, 0), (0, 2), (2, 0, 2)]), name, False)
+        return t, []
+    if kind == "scalar":
+        t = ("b", rng.choice([x for x in TYPES if x != "String"]), (), name, False)
+        return t, gen_data(rng, t)
+    if kind == "sequence":
+        t = gen_seq(rng, name, 0)
+        return t, gen_data(rng, t)
+    if kind == "struct-last-str4":
+        m, x = last_variable(rng, "str4", name + "_s")
+        first = gen_base(rng, name + "_a")
+        return ("st", name, [first, m]), [gen_data(rng, first), x]
+    if kind == "grid-last-byte4":
+        arr = ("b", "Int32", (4,), name + "_a", False)
+        mp = ("b", "Byte", (4,), name + "_x0", False)
+        return ("gr", name, [arr, mp]), [gen_data(rng, arr), gen_data(rng, mp)]
+    raise ValueError(kind)
+
+
+def last_variable_datasets(rng, reps):
+    """datasets whose last variable is of each LAST_KINDS kind, after 0..2 arbitrary variables"""
+    for kind in LAST_KINDS:
+        for r in range(reps):
+            npre = 0 if kind.startswith("only-") else rng.randint(0 if r else 1, 2)
+            pre = [gen_tmpl_var(rng, "v%d" % i, 1) for i in range(npre)]
+            lt, ld = last_variable(rng, kind)
+            t = ("st", "d", pre + [lt])
+            yield kind, t, [gen_data(rng, c) for c in pre] + [ld]
+
+
 def has_seq(t):
     return t[0] == "sq" or (t[0] in ("st", "gr") and any(has_seq(c) for c in t[2]))
 
@@ -398,9 +449,10 @@ def split_body(raw):
 class CannedApp(object):
     """WSGI app that answers every .dods request with a fixed body and .dds/.das with fixed text"""
 
-    def __init__(self, dds, dods_for):
+    def __init__(self, dds, dods_for, chunker=None):
         self.dds = dds
         self.dods_for = dods_for     # callable(query) -> bytes
+        self.chunker = chunker       # callable(bytes) -> list of chunks (the app_iter of a .dods response)
 
     def __call__(self, environ, start_response):
         path = environ.get("PATH_INFO", "")
@@ -413,6 +465,8 @@ class CannedApp(object):
             body, ctype = self.dods_for(q), "application/octet-stream"
         start_response("200 OK", [("Content-Type", ctype), ("Content-Length", str(len(body))),
                                   ("XDODS-Server", "pydap/ref"), ("Content-Description", "dods_data")])
+        if self.chunker is not None and not path.endswith((".dds", ".das")):
+            return list(self.chunker(body))
         return [body]
 
 
@@ -503,3 +557,75 @@ def save_dods(raw):
     with os.fdopen(fd, "wb") as f:
         f.write(raw)
     return path
+
+
+# ---------------------------------------------------------------------------------------------------
+# streaming paths: the same bytes delivered in pieces (StreamReader, open_dods_url, SequenceProxy.__iter__)
+CHUNKINGS = ["whole", "bytes", "last1", "reads", "random"]
+
+
+def chunk(blob, how, seed=0, reads=None):
+    """`blob` cut into chunks (b"".join(result) == blob).  whole: one chunk; bytes: 1-byte chunks; last1: a
+    boundary right before the last byte; reads: a boundary wherever the decoder's reads end (every read is
+    answered by exactly one chunk, the buffer is empty after each) ; random: a seeded partition with empty chunks"""
+    if how == "whole":
+        return [blob]
+    if how == "bytes":
+        return [blob[i:i + 1] for i in range(len(blob))]
+    if how == "last1":
+        return [blob[:-1], blob[-1:]] if len(blob) > 1 else [blob]
+    if how == "reads":
+        out, pos = [], 0
+        for n in reads or []:
+            if n and pos + n <= len(blob):
+                out.append(blob[pos:pos + n])
+                pos += n
+        if pos < len(blob):
+            out.append(blob[pos:])
+        return out
+    import random
+    r = random.Random(seed * 7919 + len(blob))
+    out, pos = [], 0
+    while pos < len(blob):
+        k = r.choice([0, 1, 1, 2, 3, 4, 5, 8, 13, 64])
+        out.append(blob[pos:pos + k])
+        pos += k
+    if r.random() < 0.3:
+        out.append(b"")
+    return out
+
+
+class Rechunk(object):
+    """WSGI middleware: re-delivers every response body in other chunks (what a proxy / the network does)"""
+
+    def __init__(self, app, how, seed=0):
+        self.app, self.how, self.seed = app, how, seed
+
+    def __call__(self, environ, start_response):
+        body = b"".join(self.app(environ, start_response))
+        return chunk(body, self.how, self.seed)
+
+
+class TracingBytesReader(object):
+    """a strict reader that records the sizes asked for (harness-side; used to cut a stream at the read ends)"""
+
+    def __init__(self, data):
+        self.data, self.reads = data, []
+
+    def read(self, n):
+        n = int(n)
+        self.reads.append(n)
+        out = self.data[:n]
+        if len(out) < n:
+            raise EOFError("short")
+        self.data = self.data[n:]
+        return out
+
+
+def read_decoded_var(v, t):
+    """values of a dataset whose data is already decoded (open_dods_file, open_dods_url)"""
+    if t[0] == "b":
+        return v.data
+    if t[0] == "sq":
+        return list(materialise_rows(iter(v.data), t))
+    return [read_decoded_var(v[c[3] if c[0] == "b" else c[1]], c) for c in t[2]]
